@@ -43,6 +43,36 @@ fn main() {
             r.rep.finish();
             drop(r);
         }
+        "fresh-server" => {
+            // An isolated reference: this process only ever creates brand-new contexts of ONE configuration, types one text into each
+            // and prints the rendering.  Nothing another context of another configuration did can reach it (statics, thread-locals).
+            use std::io::{BufRead, Write};
+            let cfg: rv::engine::Cfg = serde_json::from_str(&arg(&args, "--cfg").unwrap()).unwrap();
+            let keys = rv::keys::Keys::load();
+            let home = rv::engine::scratch_home("freshsrv");
+            let stdin = std::io::stdin();
+            let mut out = std::io::stdout();
+            for line in stdin.lock().lines() {
+                let line = match line { Ok(l) => l, Err(_) => break };
+                let text: String = serde_json::from_str(&line).unwrap_or_default();
+                rv::engine::clean_home(&home);
+                let mut last = rv::engine::Obs { kind: "none".into(), ..Default::default() };
+                match rv::engine::Ctx::new(&cfg, &home) {
+                    Ok(mut c) => {
+                        for ch in text.chars() {
+                            if let Some(code) = keys.code_for_char(ch) {
+                                last = c.key(code, 0, 0);
+                                if last.kind == "panic" { break; }
+                            }
+                        }
+                    }
+                    Err(p) => last = rv::engine::Obs { kind: "panic".into(), panic: Some(p), ..Default::default() },
+                }
+                let _ = writeln!(out, "{}", serde_json::to_string(&last).unwrap());
+                let _ = out.flush();
+            }
+            let _ = std::fs::remove_dir_all(&home);
+        }
         "record" => {
             let driver = arg(&args, "--driver").unwrap_or_default();
             let out = arg(&args, "--out").unwrap();
@@ -51,7 +81,11 @@ fn main() {
             let mut r = rv::record::Recorder::new(&out, seed);
             match driver.as_str() {
                 "store" => r.driver_store(rounds),
-                "session" => r.driver_session(rounds),
+                "session" => {
+                    let shard: usize = arg(&args, "--shard").and_then(|s| s.parse().ok()).unwrap_or(0);
+                    let shards: usize = arg(&args, "--shards").and_then(|s| s.parse().ok()).unwrap_or(1);
+                    r.driver_session(rounds, shard, shards);
+                }
                 "enc" => {
                     let shard: usize = arg(&args, "--shard").and_then(|s| s.parse().ok()).unwrap_or(0);
                     let shards: usize = arg(&args, "--shards").and_then(|s| s.parse().ok()).unwrap_or(1);
